@@ -124,6 +124,9 @@ class Gen:
                 v = float(hi_i)
             return repr(v), repr(v)
         z = rng.randint(lo_i, hi_i)
+        if hi is None and root != 'xs:decimal' and rng.random() < 0.08:
+            # unbounded integer types: values that no double represents exactly (2**53 + 1, 10**18 + 1, ...)
+            z = rng.choice([9007199254740993, 10 ** 18 + 1, 2 ** 64 + 3, 123456789012345678901])
         return str(z), str(z)
 
     # ---- elements ----
